@@ -303,3 +303,40 @@ def run(ctx, rep):
         'Partition': ('stream_id', 'topic_id', 'partition_id'),
         'Segment': ('stream_id', 'topic_id', 'partition_id')})
 
+    # ------------------------------------------------------------ R06.k a rejected request leaves no trace
+    rejections_precede_construction(ctx, rep, 'R06.k')
+
+
+
+CONSTRUCTED = re.compile(r'server::streaming::(topics::topic::Topic|streams::stream::Stream|partitions::partition::Partition|topics::consumer_group::ConsumerGroup|users::user::User|personal_access_tokens::personal_access_token::PersonalAccessToken)::(create|new|empty|with_permissions)$')
+
+
+def rejections_precede_construction(ctx, rep, rid):
+    """shared with C16: building a topic / partition has side effects on the shared counters (a new partition counts its
+    first segment at once), so a request that is going to be refused as a duplicate must be refused before the entity
+    is built"""
+    rep.rule(rid, 'a create request refused as a duplicate (…AlreadyExists) is refused before the entity is constructed: constructing a topic or partition already moves the shared counters, and the constructed entity of a refused request is dropped without moving them back', floor=11, analysis='A2 ordering')
+    for d in sorted(ctx.facts.fns):
+        if not d.startswith('server::streaming::') or not ctx.facts.fns[d].get('has_body'):
+            continue
+        try:
+            b = ctx.fn_body(d)
+        except Exception:
+            continue
+        cons = [c for c in b.calls if CONSTRUCTED.search(c.name) and is_user_call(c)]
+        if not cons:
+            continue
+        errs = []
+        for blk in sorted(b.reach):
+            for s in b.stmts(blk):
+                rv = s.get('rv')
+                if rv and rv['r'] == 'agg' and rv.get('adt') == 'iggy::error::IggyError' and 'AlreadyExists' in rv['variant']:
+                    errs.append((blk, rv['variant'], s.get('ln')))
+        for c in cons:
+            reach = set()
+            for x in b.succ(c.bb):
+                reach |= b.reachable(x)
+            for blk, v, ln in errs:
+                ok = blk not in reach
+                rep.ob(rid, d, '%s before %s' % (v, '::'.join(c.name.split('::')[-2:])), ok, '%s:%s' % (b.file, ln), None if ok else
+                       '%s can be returned after %s has run: the entity of the refused request was already constructed (its partitions have counted their segments)' % (v, '::'.join(c.name.split('::')[-2:])))
